@@ -552,7 +552,7 @@ fn random<T: Elem>(out: &mut Out, data: &[T], rng: &mut Rng, count: usize) {
 pub fn run(cfg: &Cfg, out: &mut Out) {
     let data_u: Vec<u32> = (0..64).collect();
     let data_z: Vec<()> = vec![(); 64];
-    let max_len = if cfg.thorough { 11 } else { 9 };
+    let max_len = if cfg.thorough { 12 } else { 9 };
     sweep(out, &data_u, max_len);
     sweep(out, &data_z, max_len);
     // arrays into Iter (IntoIterWrapper<&[T; N]> / <&&[T; N]>)
